@@ -233,6 +233,17 @@ func c02Pipeline(ctx *Ctx, r *Rng) {
 			}
 			c.files[target] = []byte(fault + old)
 		}
+		// the line ends of each file are its own: LF, CRLF or CR (line numbers are the same in every spelling)
+		for _, k := range names {
+			switch r.Intn(4) {
+			case 0:
+				c.files[k] = bytes.ReplaceAll(c.files[k], []byte("\n"), []byte("\r\n"))
+				ctx.Cov.Hit("file with CRLF line ends")
+			case 1:
+				c.files[k] = bytes.ReplaceAll(c.files[k], []byte("\n"), []byte("\r"))
+				ctx.Cov.Hit("file with CR line ends")
+			}
+		}
 		p := Project{Files: c.files, Root: "root.jst"}
 		res := RunProject(p, false)
 		cases++
